@@ -295,6 +295,9 @@ DoAccess(name, take, max, m, h, prev, tag) ==
 ReadTake(take, max, m, h) ==
     /\ nAcc < MaxAccess
     /\ (IF take THEN "Take" ELSE "Read") \in AccessKinds
+    \* outside the enumerated domain: access by the handle of an instance the reader has only heard of through rejected
+    \* changes (dust-dds then knows the handle and answers NoData instead of BadParameter; the statements do not say)
+    /\ (h # NoInst /\ ~inst[h].known) => inst[h].writers = {}
     /\ nAcc' = nAcc + 1
     /\ UNCHANGED <<owner, matched, acc, nextId, nAdds, nUnm>>
     /\ IF h # NoInst /\ ~inst[h].known THEN
